@@ -274,7 +274,10 @@ type Client struct {
 }
 
 // Dial opens a connection from addr ("ip:port") and starts the real connection handler on the server end.
-func (w *World) Dial(addr string) *Client {
+func (w *World) Dial(addr string) *Client { return w.DialWith(addr, nil) }
+
+// DialWith is Dial with a hook that can prepare the server end of the connection before the handler starts.
+func (w *World) DialWith(addr string, prep func(serverEnd *End)) *Client {
 	if addr == "" {
 		w.mu.Lock()
 		w.nextAddr++
@@ -282,6 +285,9 @@ func (w *World) Dial(addr string) *Client {
 		w.mu.Unlock()
 	}
 	ce, se := Pipe()
+	if prep != nil {
+		prep(se)
+	}
 	c := &Client{W: w, Addr: addr, conn: ce, srvEnd: se, preLeft: 8, done: make(chan struct{}), nextID: 1}
 	w.mu.Lock()
 	w.clients = append(w.clients, c)
